@@ -62,9 +62,9 @@ META = {
                  '(new instance) or refresh (held instance); proved separately under C04',
                  'event listeners, joins, foreign keys, column kinds other than IntCol, per-connection instances, threads',
                  'lazyUpdate together with cacheValues=False shows the stored value, not the pending one (noted, excluded from the read theorem by hypothesis)'],
-    'assumptions': ['lazily consumed selects: the DB-API driver reads ONE row ahead, so a write to exactly the row an open '
-                    'iteration hands out next is overwritten in the instance by the older copy (reported finding); the '
-                    'generator does not write to that row, everything beyond one row of look-ahead is checked',
+    'assumptions': ['open finding C05:stale-read:lazyIter-lookahead-row (known_findings.json; replayed on the real code every run by '
+                    'probe_lookahead): a write to exactly the row an open lazyIter() hands out next is lost in the held instance. '
+                    'The random generator does not write to that single look-ahead row; any staleness beyond it alarms',
                     'translated-method theorems: the class has at least one column (two for _SO_getValue); no signal listener is '
                     'connected; set(**kw) with a keyword that is not a column: proved (TypeError, nothing changed) when the '
                     'column keywords are valid (the hand model reports the unknown name before it validates, the code after); '
@@ -1561,16 +1561,53 @@ def probe_like_named(ctx):
                         {'probe': 'like_named', 'cache': True, 'mode': 'B', 'ops': []})
 
 
+def probe_lookahead(ctx):
+    """known finding (open): a write to exactly the row an open lazyIter() hands out next is overwritten in the held
+    instance by the copy the driver read ahead.  Replays  a = E(x=7); it = iter(E.select().lazyIter()); a.x = 0;
+    next(it); a.x  on the real code, on a connection of its own, and compares with a raw SELECT."""
+    sqlo.setup()
+    from sqlobject import SQLObject, IntCol
+    what = None
+    for do_cache in (True, False):
+        conn = sqlo.mem_conn(cache=do_cache)
+        cls = type(sqlo.uniq('C05Look'), (SQLObject,), {'_connection': conn, 'x': IntCol(default=None),
+                                                        'sqlmeta': type('sqlmeta', (), {'table': 't_look'})})
+        cls.createTable()
+        try:
+            a = cls(x=7)
+            it = iter(cls.select().lazyIter())
+            a.x = 0
+            got = next(it)
+            shown = a.x
+            cur = conn._memoryConn.cursor()
+            cur.execute('SELECT x FROM t_look WHERE id = %d' % a.id)
+            stored = cur.fetchone()[0]
+            cur.close()
+            del it
+            if got is not a or shown != stored:
+                what = ('a = E(x=7); it = iter(E.select().lazyIter()); a.x = 0; next(it) (cache=%s): a.x shows %r, the row '
+                        'holds %r%s' % (do_cache, shown, stored, '' if got is a else '; the iteration handed out another instance'))
+                break
+        except Exception as ex:
+            what = 'look-ahead witness raised %s' % sqlo.exc_name(ex)
+            break
+    ctx.case(('probe', 'lookahead'), sample={'probe': 'write to the look-ahead row of an open lazyIter()', 'failed': bool(what)},
+             kind='directed probe')
+    if what:
+        ctx.oracle_fail('C05:stale-read:lazyIter-lookahead-row', what, {'probe': 'lookahead', 'cache': True, 'mode': 'B', 'ops': []})
+
+
 def run(ctx):
     env(True)
     env(False)
     probe_like_named(ctx)
+    probe_lookahead(ctx)
     n = ctx.budget(2500, 15000)
     drive(ctx, 'C05', W_C05, n, 30 if ctx.tier == 'quick' and not ctx.deep else 60)
 
 
 def replay(case):
-    if case.get('probe') == 'like_named':
+    if case.get('probe') in ('like_named', 'lookahead'):
         class _C(object):
             fails = []
 
@@ -1580,8 +1617,8 @@ def replay(case):
             def oracle_fail(self, key, what, case):
                 self.fails.append(what)
         c = _C()
-        probe_like_named(c)
-        return (not c.fails), '\n'.join(c.fails) or 'like-named classes keep separate identity maps'
+        (probe_like_named if case['probe'] == 'like_named' else probe_lookahead)(c)
+        return (not c.fails), '\n'.join(c.fails) or 'the witness no longer reproduces'
     r = run_history(case['cache'], case['mode'], [list(o) for o in case['ops']], 'C05')
     bad = [f for f in r.fails if f[0] == case.get('kind', f[0])]
     txt = '\n'.join('%s [%s]: %s' % f for f in r.fails) or 'no oracle failure on this history'
